@@ -88,20 +88,20 @@ theorem rep_half_piV : Rep (F := F) (piV F / 2) := by
   · rw [habs]; have := inv_two_pow_1000_small; generalize (1:ℝ) / 2 ^ 1000 = t at *; linarith
   · rw [habs]; have := two_pow_1000_big; generalize (2:ℝ) ^ 1000 = t at *; linarith
 
-theorem inRange_small {x : ℝ} (h : |x| ≤ 10 ^ 300) : InRange (F := F) x := inRange_of_le h
+theorem inRange_small {x : ℝ} (h : |x| ≤ 10 ^ 250) : InRange (F := F) x := inRange_of_le h
 
-theorem ten_pow_300_big : (1000 : ℝ) ≤ 10 ^ 300 := by
+theorem ten_pow_250_big : (1000 : ℝ) ≤ 10 ^ 250 := by
   calc (1000:ℝ) = 10 ^ 3 := by norm_num
-    _ ≤ 10 ^ 300 := pow_le_pow_right₀ (by norm_num) (by norm_num)
+    _ ≤ 10 ^ 250 := pow_le_pow_right₀ (by norm_num) (by norm_num)
 
 theorem inRange_of_abs_le_1000 {x : ℝ} (h : |x| ≤ 1000) : InRange (F := F) x :=
-  inRange_of_le (le_trans h ten_pow_300_big)
+  inRange_of_le (le_trans h ten_pow_250_big)
 
 theorem inRange_of_abs_le_2p60 {x : ℝ} (h : |x| ≤ 2 ^ 60) : InRange (F := F) x := by
   apply inRange_of_le
   calc |x| ≤ 2 ^ 60 := h
     _ ≤ 10 ^ 60 := by gcongr; norm_num
-    _ ≤ 10 ^ 300 := pow_le_pow_right₀ (by norm_num) (by norm_num)
+    _ ≤ 10 ^ 250 := pow_le_pow_right₀ (by norm_num) (by norm_num)
 
 theorem qp_spec : Fin (qp : F) ∧ val (qp : F) = piV F / 2 := by
   have hp := piV_gt3 (F := F); have hl := piV_lt4 (F := F)
